@@ -1339,7 +1339,10 @@ pub fn drop_chunks<T: Clone>(xs: &[T]) -> Vec<Vec<T>> {
             out.push(v);
             start += size;
         }
-        if size == 1 {
+        // (every candidate is a copy of nearly the whole list: for lists of more than 256 elements at most ~32 chunks per level, so that the
+        // candidates of a list of 10^5 elements take megabytes, not the square of that; the list shrinks as
+        // candidates are accepted and the finer levels are reached then)
+        if size == 1 || (n > 256 && n.div_ceil(size) >= 32) {
             break;
         }
         size /= 2;
